@@ -2596,6 +2596,10 @@ class InFramesetPhase(Phase):
 
     def processCharacters(self, token):
         self.parser.parseError("unexpected-char-in-frameset")
+        # only the non-space characters are ignored
+        data = "".join(char for char in token["data"] if char in spaceCharacters)
+        if data:
+            self.tree.insertText(data)
 
     def startTagFrameset(self, token):
         self.tree.insertElement(token)
@@ -2651,6 +2655,10 @@ class AfterFramesetPhase(Phase):
 
     def processCharacters(self, token):
         self.parser.parseError("unexpected-char-after-frameset")
+        # only the non-space characters are ignored
+        data = "".join(char for char in token["data"] if char in spaceCharacters)
+        if data:
+            self.tree.insertText(data)
 
     def startTagNoframes(self, token):
         return self.parser.phases["inHead"].processStartTag(token)
@@ -2730,6 +2738,10 @@ class AfterAfterFramesetPhase(Phase):
 
     def processCharacters(self, token):
         self.parser.parseError("expected-eof-but-got-char")
+        # only the non-space characters are ignored
+        data = "".join(char for char in token["data"] if char in spaceCharacters)
+        if data:
+            self.processSpaceCharacters({"type": token["type"], "data": data})
 
     def startTagHtml(self, token):
         return self.parser.phases["inBody"].processStartTag(token)
